@@ -8,14 +8,16 @@ cdef class LegacyRecordBatch:
         Py_buffer _buffer
         char _magic
         int _decompressed
+        int _crc_valid
         LegacyRecord _main_record
 
     @staticmethod
     cdef inline LegacyRecordBatch new(
         bytes buffer, Py_ssize_t pos, Py_ssize_t slice_end, char magic)
 
+    cdef int _check_crc(self)
     cdef int _decompress(self, char compression_type) except -1
-    cdef int64_t _read_last_offset(self) except -1
+    cdef int64_t _read_last_offset(self) except? -1
     cdef inline int _check_bounds(
             self, Py_ssize_t pos, Py_ssize_t size) except -1
     cdef LegacyRecord _read_record(self, Py_ssize_t* read_pos)
